@@ -80,8 +80,11 @@ Qed.
 Theorem quiescent_completed w e m :
   Inv w -> 1 <= c_par (w_cfg w) -> quiescent w -> env_done w ->
   w_exp w = Some e -> e_max e = Some m -> c_par (w_cfg w) <= m ->
-  (* assumptions on the algorithm service and on the cleanup/restart bookkeeping, see DESIGN.md section 6 (C04) *)
-  (forall s, w_sug w = Some s -> NoDup (ss_names (s_st s)) /\ s_is (s_st s) SSucceeded = false) ->
+  (* assumption on the algorithm service (distinct names), and on the cleanup/restart bookkeeping: a Succeeded suggestion
+     next to an experiment without verdict only under FromVolume and not marked restarting (then the experiment reconcile
+     restarts it: repair of F18); see DESIGN.md section 6 (C04) *)
+  (forall s, w_sug w = Some s -> NoDup (ss_names (s_st s)) /\
+             (s_is (s_st s) SSucceeded = true -> c_resume (w_cfg w) = FromVolume /\ s_restarting (s_st s) = false)) ->
   e_completed (e_st e) = true.
 Proof.
   intros [I P] Hpar ((Se&Ss&St)&Qe&Qt&Qs) ED He Hm Hpm Hsug. pose proof ED as ED0.
@@ -135,10 +138,14 @@ Proof.
   destruct (0 <? add) eqn:E3; [|apply Z.ltb_ge in E3; lia].
   unfold plan_create in PT. rewrite Ss in PT.
   destruct (w_sug w) as [s|] eqn:Hs; [|inversion PT; subst; discriminate].
-  destruct (Hsug s eq_refl) as [ND NS].
+  destruct (Hsug s eq_refl) as [ND NS0].
   destruct (s_is (s_st s) SFailed) eqn:SF.
   { inversion PT; subst. apply status_write_nil in W3. apply (f_equal e_completed) in W3. rewrite NC in W3.
     unfold e_completed, e_is, with_conds, emark_verdict, mark in W3. cbn in W3. rewrite !has_set in W3. cbn in W3. rewrite orb_true_r in W3. discriminate. }
+  destruct (s_is (s_st s) SSucceeded) eqn:NS.
+  { (* Succeeded next to a running experiment: the reconcile plans the restart of the suggestion *)
+    destruct (NS0 eq_refl) as [FV NR]. rewrite FV, NR in PT. cbn [andb] in PT. inversion PT; subst. discriminate. }
+  cbn [andb] in PT.
   inversion PT; subst ws2 st3. clear PT.
   match goal with H : _ ++ _ = [] |- _ => apply app_eq_nil in H as [WR WA] end.
   set (ies := Z.of_nat (length (filter (fun t => negb (t_obs_available t) && t_is t TEarlyStopped) ts))) in *.
